@@ -116,8 +116,8 @@ fn run(out: &mut Out, reg: &Reg, root: (u32, u8), newest: bool, prio: u8) {
     };
     let tr = prov.trace.borrow();
     if tr.iter().any(|e| e.ends_with(" none)")) { conflict = true; }
-    let case = format!("(solveb {} (root {} {}) (trace {}))", reg_sx(reg), root.0, root.1, tr.join(" "));
-    writeln!(out.w, "{}\t(res {}) (heap ok)\t{}", case, result, conflict as u8).unwrap();
+    let case = format!("(solveb {} (root {} {}) (trace {}) (strat {} {}))", reg_sx(reg), root.0, root.1, tr.join(" "), newest as u8, prio);
+    writeln!(out.w, "{}\t(res {}) (heap ok) (gen ok)\t{}", case, result, conflict as u8).unwrap();
     out.n += 1;
 }
 use std::io::Write;
@@ -154,9 +154,9 @@ pub fn eval(c: &Sx) -> String {
             Ok(Err(PubGrubError::Failure(_))) => "(failure)".to_string(),
             Ok(Err(_)) => "(othererr)".to_string(),
         };
-        return format!("(res {}) (heap ok)", result);
+        return format!("(res {}) (heap ok) (gen ok)", result);
     } }
-    "(res (diverged)) (heap ok)".to_string()
+    "(res (diverged)) (heap ok) (gen ok)".to_string()
 }
 
 pub fn generate(out: &mut Out, rng: &mut Rng, thorough: bool) {
